@@ -137,6 +137,7 @@ func c03Run(e *Env) {
 		return []WOpt{UintOpt(OptBlock2, BlockOpt(num, more, 0)), UintOpt(OptSize2, uint32(len(pl)))}, pl[lo:hi]
 	}
 	zeroFamily := 0
+	trailing := t.Chance(1, 2)
 	completedTokens := [][]byte{}
 	sharedTokens := [][]byte{}
 	itemReq := map[*OutItem]int{} // answer item -> nonce of the request it answers
@@ -369,6 +370,9 @@ func c03Run(e *Env) {
 						if zeroFamily < 7 && t.Chance(1, 3) {
 							// distinct tokens that differ only in length: 50, 00 50, 00 00 50, ...
 							r.token = append(make([]byte, zeroFamily), 0x50)
+							if trailing {
+								r.token = append([]byte{0x50}, make([]byte, zeroFamily)...) // 50, 50 00, 50 00 00, ...
+							}
 							zeroFamily++
 							if zeroFamily > 1 {
 								e.Probe("token.differsOnlyInLeadingZeros")
